@@ -265,7 +265,7 @@ def one_case(arg):
                                    for _, r in rows[1:]]
                         wantrows = [(nm, str(tallies[sym]), depth + 1) for sym, nm, depth in forest.display_order()
                                     if sym in tallies]
-                        if gotrows != wantrows:
+                        if sorted(gotrows) != sorted(wantrows):
                             out["viol"].append(("C07/table-rows", dict(ctx, got=gotrows[:8], want=wantrows[:8])))
             if out["sample"] is None:
                 out["sample"] = {"config_entries": entries[:6], "sel": sel, "tallies": dict(list(tallies.items())[:8])}
